@@ -2,6 +2,17 @@
 from contracts import c13
 
 
+FILES = ["c/dynmat.c", "c/phonopy.c", "c/derivative_dynmat.c", "c/rgrid.c", "c/tetrahedron_method.c"]
+
+
 def build(run):
     for c in c13.all_contracts():
-        run.verify_c([c], files=["c/dynmat.c", "c/phonopy.c", "c/derivative_dynmat.c", "c/rgrid.c", "c/tetrahedron_method.c"])
+        run.verify_c([c], files=FILES)
+    c, reg = c13.tetrahedron_dos_safety(run.sink)
+    run.verify_c([c], files=FILES, registry=reg)
+    # "same result as the reference semantics": the functional contracts of the kernels (proved in the
+    # per-property checks) are part of this property too
+    import importlib
+    for pid in ("C02", "C06", "C07", "C01", "C12", "C10"):
+        importlib.import_module("props." + pid).build(run)
+    importlib.import_module("props.C11").build(run, with_vertex=False)
